@@ -33,4 +33,29 @@ def classify (t : Str) : Tok Str :=
 def lexLine (s : Str) : Line Str :=
   if s.contains ',' then [.w (s.takeWhile (· ≠ ','))] else (splitBlank s).map classify
 
+/-! ### whole file as characters -/
+/-- the file `UCDWriter.write` produces: every line terminated by a newline -/
+def fileText (m : Mesh Str) : Str := unlines ((write m).map lineText)
+/-- `UCDData.read_files` on the file's characters: the lines `StringSeries.read_file` delivers, lexed, read by position -/
+def readText (s : Str) : Option (Read Str) := Ucd.read ((fileLines s).map lexLine)
+
+/-! ### hypotheses of the character-level round trip as Boolean functions (the driver evaluates them on every case) -/
+/-- a value numeral (`repr` of a float, `NaN`): a whitespace-free non-empty token without comma that is neither a
+    decimal integer nor an element type name -/
+def valOKB (x : Str) : Bool :=
+  tokOKB x && !x.contains ',' && (Numeral.parseNat x).isNone && (typeIndex x).isNone
+/-- a variable name: no whitespace, no comma -/
+def nameOKB (s : Str) : Bool := noWsB s && !s.contains ','
+def ucdTokOKB : Tok Str → Bool
+  | .n _ => true
+  | .v x => valOKB x
+  | .t k => decide (k < Femio.Gen.elementTypes.length)
+  | .w _ => false
+/-- a line of value / count / type tokens, or a name line -/
+def lineOKB (l : Line Str) : Bool := l.all ucdTokOKB || (match l with | [.w s] => nameOKB s | _ => false)
+def meshOKB (m : Mesh Str) : Bool :=
+  m.nodes.all (fun p => p.2.all valOKB) && m.blocks.all (fun b => decide (b.1 < Femio.Gen.elementTypes.length)) &&
+  m.nodalVars.all (fun x => nameOKB x.name) && m.nodalRows.all (fun r => r.all valOKB) &&
+  m.elemVars.all (fun x => nameOKB x.name) && m.elemRows.all (fun r => r.all valOKB)
+
 end Femio.C04
